@@ -100,6 +100,16 @@ func (l *Client) getMaxHtlcAmtMsat(chanId uint64, pubkey string) (uint64, error)
 	return maxHtlcAmtMsat, nil
 }
 
+// balanceAboveReserveMsat returns what a side of a channel holds above its
+// channel reserve in msat. A side whose balance is at or below its reserve
+// (e.g. the non-funding side of a fresh channel) can not move anything.
+func balanceAboveReserveMsat(balanceSat int64, reserveSat uint64) uint64 {
+	if balanceSat <= 0 || uint64(balanceSat) <= reserveSat {
+		return 0
+	}
+	return (uint64(balanceSat) - reserveSat) * 1000
+}
+
 // SpendableMsat returns an estimate of the total we could send through the
 // channel with given scid.
 func (l *Client) SpendableMsat(scid string) (uint64, error) {
@@ -123,8 +133,8 @@ func (l *Client) SpendableMsat(scid string) (uint64, error) {
 			if err != nil {
 				return 0, err
 			}
-			spendable := (uint64(ch.GetLocalBalance()) -
-				ch.GetLocalConstraints().GetChanReserveSat()) * 1000
+			spendable := balanceAboveReserveMsat(ch.GetLocalBalance(),
+				ch.GetLocalConstraints().GetChanReserveSat())
 			// since the max htlc limit is not always set reliably,
 			// the check is skipped if it is not set.
 			if maxHtlcAmtMsat == 0 {
@@ -160,8 +170,8 @@ func (l *Client) ReceivableMsat(scid string) (uint64, error) {
 			if err != nil {
 				return 0, err
 			}
-			receivable := (uint64(ch.GetRemoteBalance()) -
-				ch.GetRemoteConstraints().GetChanReserveSat()) * 1000
+			receivable := balanceAboveReserveMsat(ch.GetRemoteBalance(),
+				ch.GetRemoteConstraints().GetChanReserveSat())
 			// since the max htlc limit is not always set reliably,
 			// the check is skipped if it is not set.
 			if maxHtlcAmtMsat == 0 {
